@@ -21,6 +21,8 @@ Fail closed: a source shape outside the ones understood raises TranslatorError. 
                                                                            -> seen_set_fresh_per_event
   _apply_recursively: label first, then `if "__init__" not in members: _set_dataclass_init; _del_members_annotated_as_initvar`
                                                                            -> class_steps
+  _dataclass_parameters: `if [not member.is_alias and] member.is_attribute`                        -> skips_alias_members
+  expressions.Expr.is_classvar: by last name of the canonical path, or by the whole (one-hop) path -> classvar_by_last_name
 """
 from __future__ import annotations
 
@@ -142,6 +144,18 @@ def translate(ctx=None):
             raise TranslatorError("C18: _set_dataclass_init does not use _dataclass_fields / _reorder_parameters(list(fields.values()))")
         mode = "Accumulated"
 
+    # ---- members imported in the class body (aliases)
+    member_loops = [n for n in ast.walk(params) if isinstance(n, ast.For) and _src(n.iter) == "class_.members.values()"]
+    if len(member_loops) != 1 or not member_loops[0].body or not isinstance(member_loops[0].body[0], ast.If):
+        raise TranslatorError("C18: _dataclass_parameters: loop over class_.members.values() not found")
+    mtest = _src(member_loops[0].body[0].test)
+    if mtest == "member.is_attribute":
+        skips_alias = False
+    elif mtest == "not member.is_alias and member.is_attribute":
+        skips_alias = True
+    else:
+        raise TranslatorError("C18: _dataclass_parameters: member test not understood: " + mtest)
+
     # ---- kind rule
     kinds = [n for n in ast.walk(params) if isinstance(n, ast.Assign) and _src(n.targets[0]) == "kind" and isinstance(n.value, ast.IfExp)]
     if len(kinds) != 1 or _src(kinds[0].value.body) != "ParameterKind.keyword_only" or _src(kinds[0].value.orelse) != "ParameterKind.positional_or_keyword":
@@ -255,6 +269,24 @@ def translate(ctx=None):
     if first != ["if mod_cls.canonical_path in processed:\n    return", "processed.add(mod_cls.canonical_path)"]:
         raise TranslatorError(f"C18: _apply_recursively does not start with the seen-path test on canonical_path: {first}")
 
+    # ---- Expr.is_classvar (what the visitor's class-attribute label rests on)
+    try:
+        etree = ast.parse(open(f"{REPO}/src/_griffe/expressions.py").read())
+    except (OSError, SyntaxError) as e:
+        raise TranslatorError(f"C18: cannot parse expressions.py: {e}") from e
+    expr_cls = next((n for n in etree.body if isinstance(n, ast.ClassDef) and n.name == "Expr"), None)
+    icv = expr_cls and next((n for n in expr_cls.body if isinstance(n, ast.FunctionDef) and n.name == "is_classvar"), None)
+    ret_cv = icv and [n for n in icv.body if isinstance(n, ast.Return)]
+    if not ret_cv:
+        raise TranslatorError("C18: Expr.is_classvar not found")
+    cv_src = _src(ret_cv[0].value)
+    if cv_src == "isinstance(self, ExprSubscript) and self.canonical_name == 'ClassVar'":
+        cv_last = True
+    elif cv_src.startswith("isinstance(self, ExprSubscript) and self.canonical_path in ") or cv_src.startswith("isinstance(self, ExprSubscript) and self.canonical_path == "):
+        cv_last = False
+    else:
+        raise TranslatorError("C18: Expr.is_classvar not understood: " + cv_src)
+
     out = [
         "(* GENERATED by harness/translate/c18_flags.py from src/_griffe/extensions/dataclasses.py — do not edit *)",
         "From Coq Require Import List Bool String.",
@@ -280,6 +312,10 @@ def translate(ctx=None):
         "Definition builtin_extension_always_loaded : bool := true.", "",
         "(* DataclassesExtension.on_package_loaded is `_apply_recursively(pkg, set())` and nothing else *)",
         "Definition seen_set_fresh_per_event : bool := true.", "",
+        "(* Expr.is_classvar compares the LAST component of the canonical path with ClassVar (true) or the whole one-hop path (false) *)",
+        f"Definition classvar_by_last_name : bool := {'true' if cv_last else 'false'}.", "",
+        "(* _dataclass_parameters skips members that are aliases (names imported in the class body) instead of asking for their kind *)",
+        f"Definition skips_alias_members : bool := {'true' if skips_alias else 'false'}.", "",
         "(* the class branch of _apply_recursively, in order *)",
         f"Definition class_steps : list cl_step := [{'; '.join(csteps)}].", "",
     ]
